@@ -230,6 +230,87 @@ Proof.
   - unfold read_poly. rewrite E_kids. fold rd_term. fold wr_term. rewrite rt_terms. reflexivity.
   - unfold read_spline. rewrite E_kids. fold rd_point. fold wr_point. rewrite rt_points. cbn [bind]. step. destruct W as [-> | ->]; reflexivity.
 Qed.
+
+(* ---- context calibrators, default calibrator ---- *)
+Definition context_wf (c : xcontext) : Prop := criteria_wf true (xx_criteria c) /\ cal_wf (xx_cal c).
+Lemma is_tag_write_cal n c : is_tag U n (write_cal U c) = String.eqb (match c with XPoly _ => "PolynomialCalibrator" | XSpline _ _ _ => "SplineCalibrator" end) n.
+Proof. destruct c; cbn [write_cal]; apply is_tag_E. Qed.
+
+Ltac fstep := repeat (progress (
+  unfold find_path, find, findall; rewrite ?E_kids, ?E_attrs, ?ET_text; cbn [List.find filter app];
+  rewrite ?is_tag_E, ?is_tag_ET, ?is_tag_VE, ?is_tag_write_cal, ?is_tag_write_comparison, ?is_tag_write_bexpr;
+  cbn [String.eqb Ascii.eqb Bool.eqb])).
+
+Theorem rt_context c : context_wf c -> read_context U (write_context U c) = Ok c.
+Proof.
+  intros [Wk Wc]. destruct c as [ks cal]. cbn [xx_criteria xx_cal] in *. unfold read_context, write_context. cbn [xx_criteria xx_cal].
+  unfold find at 1. rewrite E_kids. cbn [List.find]. rewrite is_tag_E. cbn [String.eqb Ascii.eqb Bool.eqb].
+  rewrite (rt_match false true "ContextMatch" [] ks Wk). cbn [bind].
+  pose proof (rt_cal cal Wc) as R. destruct cal as [ts|o ex ps]; fstep; now rewrite R.
+Qed.
+
+Theorem rt_default_cal tag attrs kids cal : cal_wf cal ->
+  read_default_cal U (E U tag attrs (E U "DefaultCalibrator" [] [write_cal U cal] :: kids)) = Ok (Some cal).
+Proof.
+  intro W. unfold read_default_cal. pose proof (rt_cal cal W) as R. destruct cal as [ts|o ex ps]; fstep; now rewrite R.
+Qed.
+
+(* ---- discrete lookups, dynamic sizes ---- *)
+Definition lookup_wf (l : xlookup) : Prop := criteria_wf false (xl_criteria l).
+Lemma write_lookup_eq l : write_lookup U l = E U "DiscreteLookup" [("value", AF (xl_value l))] (write_criteria U (xl_criteria l)).
+Proof. unfold write_lookup, write_criteria. destruct (xl_criteria l) as [|k [|k2 r]]; reflexivity. Qed.
+Theorem rt_lookup l : lookup_wf l -> read_lookup U (write_lookup U l) = Ok l.
+Proof.
+  intro W. destruct l as [ks v]. unfold lookup_wf in W. cbn [xl_criteria] in W. rewrite write_lookup_eq. cbn [xl_value xl_criteria].
+  unfold read_lookup. rewrite (rt_match true false "DiscreteLookup" _ ks W). step. reflexivity.
+Qed.
+Lemma rt_lookups ls : Forall lookup_wf ls -> mapM (read_lookup U) (map (write_lookup U) ls) = Ok ls.
+Proof. intro H. apply mapM_map_rt. eapply Forall_impl; [|exact H]. intros; now apply rt_lookup. Qed.
+
+Theorem rt_dynamic r c a : read_dynamic U (write_dynamic U r c a) = Ok (XDynamic r c a).
+Proof.
+  unfold read_dynamic, write_dynamic, read_adjust. destruct a as [[sl ic]|]; fstep; step; reflexivity.
+Qed.
+
+(* ---- numeric encodings ---- *)
+Definition numeric_wf (e : xnumeric) : Prop :=
+  match xn_default e with Some c => cal_wf c | None => True end /\
+  match xn_context e with Some cs => cs <> [] /\ Forall context_wf cs | None => True end.
+Lemma rt_contexts cs : Forall context_wf cs -> mapM (read_context U) (map (write_context U) cs) = Ok cs.
+Proof. intro H. apply mapM_map_rt. eapply Forall_impl; [|exact H]. intros; now apply rt_context. Qed.
+
+Theorem rt_numeric e : numeric_wf e -> read_numeric U (xn_float e) (write_numeric U e) = Ok e.
+Proof.
+  intros [Wd Wc]. destruct e as [fl sz enc ord d c]. cbn [xn_default xn_context xn_float] in *.
+  unfold read_numeric, write_numeric. cbn [xn_float xn_size xn_encoding xn_order xn_default xn_context].
+  set (tag := if fl then "FloatDataEncoding" else "IntegerDataEncoding").
+  assert (RC : forall kids0, read_context_list U (E U tag [("sizeInBits", AZ sz); ("encoding", AS enc); ("byteOrder", AS ord)]
+                 (kids0 ++ match c with Some ((_ :: _) as cs) => [E U "ContextCalibratorList" [] (map (write_context U) cs)] | _ => [] end)) = Ok c
+                 \/ exists x, In x kids0 /\ is_tag U "ContextCalibratorList" x = true).
+  { intro kids0. destruct c as [[|c0 cs]|].
+    - destruct Wc as [Wc _]. congruence.
+    - destruct Wc as [_ Wc]. induction kids0 as [|x t IHt].
+      + left. unfold read_context_list. fstep. rewrite rt_contexts by exact Wc. reflexivity.
+      + destruct (is_tag U "ContextCalibratorList" x) eqn:T; [right; exists x; split; [now left|exact T]|].
+        destruct IHt as [IHt|(y & Hy & Ty)]; [left|right; exists y; split; [now right|exact Ty]].
+        unfold read_context_list, find in *. rewrite E_kids in *. cbn [app List.find]. now rewrite T.
+    - induction kids0 as [|x t IHt].
+      + left. unfold read_context_list. fstep. reflexivity.
+      + destruct (is_tag U "ContextCalibratorList" x) eqn:T; [right; exists x; split; [now left|exact T]|].
+        destruct IHt as [IHt|(y & Hy & Ty)]; [left|right; exists y; split; [now right|exact Ty]].
+        unfold read_context_list, find in *. rewrite E_kids in *. cbn [app List.find]. now rewrite T. }
+  destruct d as [cal|].
+  - cbn [app]. step.
+    rewrite (rt_default_cal tag _ _ cal Wd). cbn [bind].
+    destruct (RC [E U "DefaultCalibrator" [] [write_cal U cal]]) as [R|(x & [<-|[]] & Tx)].
+    + cbn [app] in R. rewrite R. reflexivity.
+    + rewrite is_tag_E in Tx. discriminate.
+  - cbn [app]. step.
+    assert (D : read_default_cal U (E U tag [("sizeInBits", AZ sz); ("encoding", AS enc); ("byteOrder", AS ord)]
+                  match c with Some ((_ :: _) as cs) => [E U "ContextCalibratorList" [] (map (write_context U) cs)] | _ => [] end) = Ok None).
+    { unfold read_default_cal. destruct c as [[|c0 cs]|]; fstep; reflexivity. }
+    rewrite D. cbn [bind]. destruct (RC []) as [R|(x & [] & _)]. cbn [app] in R. rewrite R. reflexivity.
+Qed.
 End RT.
 
 Theorem stable_criteria U all_children bool_ok tag attrs ks : criteria_wf bool_ok ks ->
